@@ -2345,7 +2345,10 @@ fn probe_semi_anti_parallel(
                                         .store(true, Ordering::Relaxed);
                                 }
                             }
-                            pass
+                            // One match settles a PROBE row (swapped: probe rows are the
+                            // output). When the BUILD rows are the output every qualifying
+                            // candidate must be marked, so the walk continues.
+                            pass && swapped
                         });
                         continue;
                     }
@@ -2379,7 +2382,10 @@ fn probe_semi_anti_parallel(
                                         build_matched[entry.batch_idx][entry.row_idx]
                                             .store(true, Ordering::Relaxed);
                                     }
-                                    break;
+                                    // stop early only when the probe row is the output
+                                    if swapped {
+                                        break;
+                                    }
                                 }
                             } else if let Some(filter_expr) = filter {
                                 let build_row_batch = create_single_row_combined_batch(
@@ -2404,7 +2410,9 @@ fn probe_semi_anti_parallel(
                                             build_matched[entry.batch_idx][entry.row_idx]
                                                 .store(true, Ordering::Relaxed);
                                         }
-                                        break;
+                                        if swapped {
+                                            break;
+                                        }
                                     }
                                 }
                             } else {
@@ -2414,7 +2422,9 @@ fn probe_semi_anti_parallel(
                                     build_matched[entry.batch_idx][entry.row_idx]
                                         .store(true, Ordering::Relaxed);
                                 }
-                                break;
+                                if swapped {
+                                    break;
+                                }
                             }
                         }
                     }
